@@ -17,7 +17,9 @@ def run(tier):
         for n in range(1, n2 + 1):
             for m in range(n, n2 + 1):
                 jobs.append(dict(base, harness="VerifC10SameCanon", params={"sys": sys, "n": n, "m": m}))
-    return run_property("C10", tier, [Group("semver", jobs)], required_covers=["accepted in domain", "same canon"],
+    pj = [dict(base, harness="VerifC10CanonVersion", params={"n": n}) for n in range(0, n1 + 1)]
+    return run_property("C10", tier, [Group("semver", jobs), Group("pypi", pj)],
+                        required_covers=["accepted in domain", "same canon", "version canonicalised to a different string"],
                         assumptions=["version strings are arbitrary byte strings of the stated lengths",
                                      "RubyGems versions with a prerelease segment are outside the property's domain"],
                         bounds={"round_trip_len": n1, "same_canon_pair_len": n2})
